@@ -83,7 +83,7 @@ func extractSymbols(journal *ast.Journal, mapper *columnMapper, uri protocol.Doc
 					Kind: protocol.SymbolKindFunction,
 					Location: protocol.Location{
 						URI:   uri,
-						Range: *mapper.toProtocol(estimatePayeeRange(tx, payee)),
+						Range: *mapper.toProtocol(mapper.payeeRange(tx, payee)),
 					},
 				})
 			}
